@@ -7,13 +7,6 @@ From CG Require Import Scalar Model.Vector Proofs.Tac.
 Import ListNotations.
 Set Implicit Arguments.
 
-(* textbook list operations used on the specification side *)
-Fixpoint lzip (A B C : Type) (f : A -> B -> C) (l1 : list A) (l2 : list B) : list C :=
-  match l1, l2 with
-  | a :: l1', b :: l2' => f a b :: lzip f l1' l2'
-  | _, _ => []
-  end.
-
 Ltac unfold_vec :=
   cbv [v1_add v2_add v3_add v4_add v1_sub v2_sub v3_sub v4_sub v1_neg v2_neg v3_neg v4_neg
        v1_mul_s v2_mul_s v3_mul_s v4_mul_s v1_div_s v2_div_s v3_div_s v4_div_s
